@@ -3,6 +3,7 @@ CONSTANTS
   MaxThreads = 0
   NameLens = {}
   PlaceByNamedIndex = TRUE
+  CountListed = TRUE
 INVARIANT Verdict
 POSTCONDITION Accepted
 CHECK_DEADLOCK FALSE
